@@ -77,6 +77,16 @@ func Corpus() []Scenario {
 		{Name: "e:ready-and-dead-select", Max: 1, Callers: 1, Ops: []Op{{Op: "parkready"},
 			{Op: "start", A: 0}, {Op: "step", A: 0, Until: "h.readycall"}, {Op: "ready", A: 0},
 			{Op: "kill", A: 0}, {Op: "step", A: ActRun0}, {Op: "step", A: 0, Until: "h.invoke"}}},
+		// two death notifications for one connection: the Run goroutine's exit and the mark-dead path of
+		// Invoke (retryable error) both call dead(); g1: the holder enters the region first, g2: the Run goroutine
+		{Name: "g1:concurrent-death-notifications:holder-first", Max: 2, Callers: 1, Ops: cat(hold(0, 0), []Op{
+			{Op: "kill", A: 0}, {Op: "finish", A: 0, Out: "dead"},
+			{Op: "step", A: 0, Until: "pool.dead.enter"}, {Op: "step", A: ActRun0}, {Op: "step", A: ActRun0},
+			{Op: "step", A: 0}, {Op: "step", A: ActRun0}, {Op: "step", A: ActRun0}})},
+		{Name: "g2:concurrent-death-notifications:run-first", Max: 2, Callers: 1, Ops: cat(hold(0, 0), []Op{
+			{Op: "kill", A: 0}, {Op: "finish", A: 0, Out: "dead"},
+			{Op: "step", A: ActRun0, Until: "pool.dead.enter"}, {Op: "step", A: 0}, {Op: "step", A: 0},
+			{Op: "step", A: ActRun0}, {Op: "step", A: 0}, {Op: "step", A: 0}})},
 		{Name: "f:death-while-in-channel", Max: 1, Callers: 2, Ops: cat(hold(0, 0), []Op{
 			{Op: "start", A: 1}, {Op: "step", A: 1, Until: "pool.acq.wait"},
 			{Op: "finish", A: 0, Out: "ok"}, {Op: "step", A: 0, Until: "h.ret"},
@@ -206,7 +216,11 @@ func child(prop string) {
 			n := runtime.Stack(buf, true)
 			_ = os.WriteFile(filepath.Join(c.Out, "hang-stacks.txt"), buf[:n], 0o644)
 			fmt.Fprintf(os.Stderr, "poolsim: schedule %q did not finish within 120 s; goroutine dump in hang-stacks.txt\n", sc.Name)
-			os.Exit(5)
+			// the main goroutine is stuck inside Run: report the hang as a violation with this schedule as replay
+			c.Obs.Evaluations++
+			c.Violate("schedule-hung", fmt.Sprintf("[%s max=%d callers=%d] the schedule did not finish within 120 s (deadlock of the pool or of the harness; goroutine dump in hang-stacks.txt)", sc.Name, sc.Max, sc.Callers), -1, 0, sc)
+			c.Finish()
+			os.Exit(0)
 		})
 		r := Run(sc, T)
 		wd.Stop()
